@@ -5,12 +5,18 @@ import json, os, shutil, subprocess, sys
 here = os.path.dirname(os.path.dirname(os.path.abspath(__file__)))
 pid = sys.argv[1]
 src = "/var/tmp/seedout_%s" % pid
-for i in sorted(os.listdir(src)):
+offset = int(sys.argv[sys.argv.index("--offset") + 1]) if "--offset" in sys.argv else 0
+if "--offset" in sys.argv:
+    k = sys.argv.index("--offset"); del sys.argv[k:k + 2]
+for i0 in sorted(os.listdir(src)):
+    if not i0.isdigit():
+        continue
+    i = str(int(i0) + offset)
     d = os.path.join(here, "seeded", "%s_%s" % (pid, i))
     os.makedirs(d, exist_ok=True)
-    for f in os.listdir(os.path.join(src, i)):
-        if os.path.isfile(os.path.join(src, i, f)):
-            shutil.copy(os.path.join(src, i, f), d)
+    for f in os.listdir(os.path.join(src, i0)):
+        if os.path.isfile(os.path.join(src, i0, f)):
+            shutil.copy(os.path.join(src, i0, f), d)
     p = subprocess.run([sys.executable, os.path.join(here, "tools", "seedtest.py"), d] + sys.argv[2:], stdout=subprocess.PIPE, text=True)
     line = [l for l in p.stdout.splitlines() if l.startswith("{")]
     out = json.loads(line[-1]) if line else {"error": p.stdout[-500:]}
